@@ -3,7 +3,7 @@
 Correspondence: dot (matrix ranks, constant operand on either side), inv, solve (UTPM/UTPM, constant A, constant b)
 of the real code vs the Lean matrix-series model (exact rationals; zeroth-order inverses as leaves).
 Oracle on the implementation: residuals A(t) inv(A)(t) = I, A(t) X(t) = B(t), det via the Leibniz formula in
-Taylor arithmetic, logdet = log(det), trace, outer, dot of every rank combination against an element-wise
+Taylor arithmetic, logdet = log|det|, trace, outer, dot of every rank combination against an element-wise
 Cauchy product, matrix exponential (Pade) against the truncated power series of exp in Taylor arithmetic."""
 import itertools
 import numpy as np
@@ -42,7 +42,7 @@ def make_case(rng, tier):
     elif kind == 'trace' and rng.random() < 0.6:
         c['x'] = rand_coeffs(rng, (D, P, rng.randint(1, 5), rng.randint(1, 5)), -2, 2)      # tall / wide / square
     elif kind in ('inv', 'det', 'logdet', 'trace'):
-        c['x'] = ops.gen_square(rng, D, P, n, 'spd' if kind == 'logdet' else 'general')
+        c['x'] = ops.gen_square(rng, D, P, n, 'spd' if (kind == 'logdet' and rng.random() < 0.4) else 'general')   # logdet = log|det|: either sign
         if kind == 'det' and rng.random() < 0.25:
             c['x'] = ops._gen_det_singular(rng, D, P, tier)[0]['v']        # singular zeroth coefficient: det is smooth there too
     elif kind == 'solve':
@@ -185,9 +185,11 @@ def check(ctx, c):
                 return 'det: differs from the Leibniz formula in Taylor arithmetic, max diff %s' % maxdiff(got.data, det.data)
         else:
             got = algopy.logdet(UTPM(x.copy()))
-            want = algopy.log(det)
+            # log|det| (numpy.linalg.slogdet(A)[1], which is what algopy.logdet returns for a plain array): smooth for either sign
+            absdet = UTPM(det.data * np.sign(det.data[0]))
+            want = algopy.log(absdet)
             if not close(got.data, want.data, 1e-8):
-                return 'logdet: differs from log(det) in Taylor arithmetic'
+                return 'logdet: differs from log|det| in Taylor arithmetic (signs of the determinants at the base points: %s)' % np.sign(det.data[0]).tolist()
         return None
     if kind == 'expm':
         q = c.get('q', 7)
@@ -304,12 +306,17 @@ def dtype_check(ctx, c):
 
 
 def replay_case(ctx, case):
+    if case.get('op') == 'utpclass-table':
+        import utpcheck
+        return utpcheck.replay(case)
     if case.get('op') == 'dtype':
         return dtype_check(ctx, case)
     return check(ctx, case)
 
 
 def run(ctx):
+    import utpcheck
+    utpcheck.run(ctx, 'C07')
     rng = ctx.rng
     for i in range(300 if ctx.tier == 'quick' else 4000):
         c = make_case(rng, ctx.tier)
